@@ -231,7 +231,7 @@ def _receiver_start(code, dot):
     return j + 1
 
 
-def rule_r3_unchecked(text, fired, slice_recv):
+def rule_r3_unchecked(text, fired, slice_recv, ref_recv=()):
     """R3: RECV.get_unchecked(I) / *RECV.get_unchecked(I) / *RECV.get_unchecked_mut(I) -> RECV[I]
     for receivers whose normalised text matches one of `slice_recv` (regex list)."""
     pos = 0
@@ -244,7 +244,7 @@ def rule_r3_unchecked(text, fired, slice_recv):
         rs = _receiver_start(code, dot)
         recv = norm_ws(text[rs:dot])
         recv_n = re.sub(r'\s*\.\s*', '.', recv)
-        if not any(re.fullmatch(p, recv_n) for p in slice_recv):
+        if not any(re.fullmatch(p, recv_n) for p in list(slice_recv) + list(ref_recv)):
             pos = m.end()
             continue
         close = match_close(code, m.end() - 1, '(', ')')
@@ -262,7 +262,8 @@ def rule_r3_unchecked(text, fired, slice_recv):
             if kk < 0 or not (code[kk].isalnum() or code[kk] in '_)]'):
                 start = k
         # leading borrow of the element (`&bits.get_unchecked(i)`) is left alone
-        text = splice(text, start, close + 1, '%s[%s]' % (recv, norm_ws(arg)))
+        as_ref = start == rs and any(re.fullmatch(p, recv_n) for p in ref_recv)
+        text = splice(text, start, close + 1, ('(&%s[%s])' if as_ref else '%s[%s]') % (recv, norm_ws(arg)))
         fired['R3'] = fired.get('R3', 0) + 1
         pos = start
     return text
@@ -283,7 +284,31 @@ R6_PATTERNS = [
 ]
 
 
+STEP_BY = re.compile(r"\bfor\s+(?P<x>\w+)\s+in\s+\(\s*(?P<a>[\w:]+)\s*\.\.\s*(?P<b>[\w:.]+)\s*\)\s*\.\s*step_by\(\s*(?P<s>[\w:]+)\s*\)\s*\{")
+
+
+def rule_r6_step_by(text, fired):
+    """for X in (A..B).step_by(S) { BODY }  ->  { let mut X: usize = A; while X < B { BODY if B - X <= S { break; } X += S; } }
+    (A, B, S side-effect free paths/literals; BODY without `continue`)."""
+    while True:
+        code = blank_noncode(text)
+        m = STEP_BY.search(code)
+        if not m:
+            return text
+        ob = m.end() - 1
+        cb = match_close(code, ob)
+        body = code[ob + 1:cb]
+        if re.search(r'\bcontinue\b', body):
+            raise Unsupported('R6 step_by: loop body contains `continue`')
+        x, a, b, st = m.group('x'), m.group('a'), m.group('b'), m.group('s')
+        tail = ' if %s - %s <= %s { break; } %s += %s; } }' % (b, x, st, x, st)
+        text = text[:cb] + tail + text[cb + 1:]
+        text = splice(text, m.start(), m.end(), '{ let mut %s: usize = %s; while %s < %s {' % (x, a, x, b))
+        fired['R6'] = fired.get('R6', 0) + 1
+
+
 def rule_r6_idioms(text, fired):
+    text = rule_r6_step_by(text, fired)
     changed = True
     while changed:
         changed = False
